@@ -144,6 +144,9 @@ def run_check(tier, seed, nworkers=None, nruns=None, budget_s=None, evidence_pat
     by_class = {"std": [i for i in sel if not is_oo_index(i)],
                 "OO": [i for i in sel if is_oo_index(i)]}
     members = {c: [w for w, v in enumerate(vs) if v["class"] == c] for c in by_class}
+    claim_dir = os.path.join(tmp, "claims")
+    os.makedirs(claim_dir)
+
     def launch(assign, deadline, extra_plan=None, recheck_of=None):
         ws = {}
         for w, v in enumerate(vs):
@@ -155,7 +158,7 @@ def run_check(tier, seed, nworkers=None, nruns=None, budget_s=None, evidence_pat
                    "cache_dir": cache_dirs[c],
                    "peer_cache_dirs": [d for k, d in cache_dirs.items() if k != c],
                    "replay_dir": replay_dir, "extra_plan": extra_plan or {},
-                   "indices": assign[w], "deadline_s": deadline,
+                   "indices": assign[w], "deadline_s": deadline, "claim_dir": claim_dir,
                    "want_records": want_records}
             ws[w] = Worker(w, v, job, env, q)
         return ws
@@ -168,9 +171,14 @@ def run_check(tier, seed, nworkers=None, nruns=None, budget_s=None, evidence_pat
         peer_list = by_class[c][members[c].index(peer)::len(members[c])]
         # determinism sample: two of the peer's runs, from the first third of its list
         # so that the peer executes them even when the wall budget cuts the plan
-        recheck_of[w] = [peer_list[len(peer_list) // 5], peer_list[len(peer_list) // 3]] \
-            if len(peer_list) >= 3 else []
-        assign[w] = by_class[c][pos::len(members[c])]
+        # (candidates from the first third of the class list; the worker re-executes the
+        #  first two of them that it did not execute itself)
+        head = by_class[c][: max(3, len(by_class[c]) // 3)]
+        recheck_of[w] = [head[(k * 37 + w * 11) % len(head)] for k in range(8)] if head else []
+        # every worker of a class gets the class's whole ordered list, rotated by its
+        # position; who executes an index is decided by claim files (dynamic balance)
+        lst = by_class[c]
+        assign[w] = lst[pos:] + lst[:pos] if claim_dir else lst[pos::len(members[c])]
     workers = launch(assign, budget_s, recheck_of=recheck_of)
     nworkers = len(vs)
 
@@ -185,7 +193,7 @@ def run_check(tier, seed, nworkers=None, nruns=None, budget_s=None, evidence_pat
         "deadline_hit": [], "digests": {}, "records": {}, "max_tasks": 0,
         "model_s": 0.0, "sim_s": 0.0, "reruns": {}, "start_failures": {},
         "identity_reuse": 0, "classes_dropped": 0, "state_probes": {}, "targeted": None,
-        "slowest": [],
+        "slowest": [], "scenario_s": collections.Counter(),
     }
 
     def collect(workers):
@@ -249,6 +257,7 @@ def run_check(tier, seed, nworkers=None, nruns=None, budget_s=None, evidence_pat
                 agg["max_tasks"] = max(agg["max_tasks"], msg.get("ntasks", 0))
                 agg["model_s"] += msg["model_s"]
                 agg["sim_s"] += msg["sim_s"]
+                agg["scenario_s"][msg["scenario"]] += msg["model_s"] + msg["sim_s"]
                 agg["slowest"].append((round(msg["model_s"] + msg["sim_s"], 1), msg["index"],
                                        msg["scenario"], msg.get("focus")))
                 if len(agg["slowest"]) > 64:
@@ -296,13 +305,21 @@ def run_check(tier, seed, nworkers=None, nruns=None, budget_s=None, evidence_pat
     if agg["state_probes"] and not agg.get("stopped_at_first") and not only and nruns is None:
         from sim import gen as G
         chosen = []
+
+        def pref(k):
+            # library classes before ad-hoc small-prime families (a soak over GF(7)
+            # never produces many distinct values), then cheap before expensive
+            t = G.BY_KIND.get(k)
+            if t is None:
+                return (2, 1e9, k)
+            adhoc = t.group.startswith("field:") and t.group[6:] not in G.FAMS
+            return (1 if adhoc else 0, t.cost, k)
         for key in sorted(agg["state_probes"]):
-            ks = sorted(agg["state_probes"][key],
-                        key=lambda k: (G.BY_KIND[k].cost if k in G.BY_KIND else 1e9, k))
+            ks = sorted(agg["state_probes"][key], key=pref)
             for k in ks[:3]:
                 if k in G.BY_KIND and k not in chosen:
                     chosen.append(k)
-        chosen = sorted(chosen, key=lambda k: (G.BY_KIND[k].cost, k))[:12]
+        chosen = sorted(chosen, key=pref)[:12]
         extra = {}
         idx = n
         for k in chosen:
@@ -506,6 +523,7 @@ def write_evidence(path, tier, seed, agg, wall, nviol, vs, nplan):
         "i1_checks_while_suspended": int(agg["i1_midop_checks"]),
         "probes": dict(agg["probes"].most_common(30)),
         "second_phase_aimed_at_hidden_state": agg.get("targeted"),
+        "seconds_per_scenario": {k: round(v, 1) for k, v in agg["scenario_s"].items()},
         "slowest_runs_s": [list(x) for x in sorted(agg["slowest"], reverse=True)[:8]],
         "golden": dict(sstats),
         "determinism_sample": {"runs_repeated_by_another_worker": agg.get("reruns_compared", 0),
